@@ -16,8 +16,9 @@ Local Open Scope N_scope.
    (reporting only, snprintf); realpath's PATH_MAX buffer (operating-system
    limit); the three default layer paths of econf_readConfig (snprintf:
    modelled by [snprintf_path], see C14_paths).  util/econftool.c: path
-   buffers (PATH_MAX, snprintf with truncation checks), the 1024-byte buffer of
-   replace_str (known finding F21) and two 3-byte answer buffers (scanf "%2s").
+   buffers (PATH_MAX, snprintf with truncation checks) and two 3-byte answer
+   buffers (scanf "%2s"); the 1024-byte buffer of replace_str (finding F21) went
+   with its repair.
    No buffer holds a key, value, section name, comment or line. *)
 Theorem C14_buffer_inventory :
   gen_buffers =
@@ -33,7 +34,6 @@ Theorem C14_buffer_inventory :
    ("util/econftool.c", "(file scope)", "conf_path", "PATH_MAX");
    ("util/econftool.c", "(file scope)", "root_dir", "PATH_MAX");
    ("util/econftool.c", "(file scope)", "usr_root_dir", "PATH_MAX");
-   ("util/econftool.c", "replace_str", "buffer", "1024");
    ("util/econftool.c", "(file scope)", "change_path", "PATH_MAX");
    ("util/econftool.c", "econf_edit_editor", "tmpfile_edit", "FILENAME_MAX");
    ("util/econftool.c", "econf_edit_editor", "path_tmpfile_edit", "PATH_MAX");
